@@ -334,6 +334,37 @@ func c09AsArgument(c *Ctx, rv c09Recv) {
 		if failed {
 			continue
 		}
+		// the long regime: the read-only stack at the bottom of a chain of writable ancestors, depth 1..12,
+		// the links alternating between Stacks and Conditions holding a Stack
+		for depth := 1; depth <= 12; depth++ {
+			for _, po := range parentOps {
+				var cur any = arg
+				for l := 0; l < depth; l++ {
+					if l%3 == 1 {
+						cur = stackage.Or().Push("s", stackage.Cond("link", stackage.Eq, cur))
+					} else {
+						cur = newStackKind(kindNames[l%5]).Push(cur, nil, "t")
+					}
+				}
+				top := cur.(stackage.Stack)
+				c.Transitions.Add(1)
+				if p := noPanic(func() { po.f(top) }); p != "" {
+					c.Violation("panic:nested-in-parent", fmt.Sprintf("read-only %s (as %s) at depth %d below a parent, %s: %s", rv.Name, form, depth, po.n, p), nil, 0)
+					failed = true
+					break
+				}
+				if after := c09Key(ro, 0, false); after != before {
+					c.Violation("changed:nested-in-parent:"+po.n, fmt.Sprintf("read-only %s (as %s) changed when an ancestor %d levels up underwent %s:\n before %s\n after  %s", rv.Name, form, depth, po.n, before, after), nil, 0)
+					return
+				}
+			}
+			if failed {
+				break
+			}
+		}
+		if failed {
+			continue
+		}
 		if after := c09Key(ro, 0, false); after != before {
 			c.Violation("changed:as-argument:"+form, fmt.Sprintf("read-only %s changed after being passed (as %s) to Transfer / IsEqual / Push / SetExpression of other instances or nested in a parent that was revealed / defragmented / reversed / reset:\n before %s\n after  %s", rv.Name, form, before, after), nil, 0)
 			return
